@@ -14,8 +14,12 @@
 //! is printed for Coq, where Chk19.c19 decides their equality with run (i) (PropFail) and then the
 //! correspondence of run (i) with the instance model of Det.v (Disagree).
 use common::{catch, coq_bool, coq_bytes, coq_list, coq_opt, coq_text, Case, Out, Rng};
-use cosmwasm_std::{Addr, Binary, Checksum, Empty};
-use cw_multi_test::{AppResponse, BankSudo, Contract, Executor, SudoMsg};
+use cosmwasm_std::testing::{MockApi, MockStorage};
+use cosmwasm_std::{Addr, Api, Binary, BlockInfo, Checksum, Empty, Storage, Timestamp};
+use cw_multi_test::{
+    no_init, App, AppBuilder, AppResponse, BankKeeper, BankSudo, Contract, DistributionKeeper, Executor, GovFailingModule, IbcFailingModule,
+    MockApiBech32m, StakeKeeper, StargateFailing, SudoMsg, WasmKeeper,
+};
 use exec_common::contract::*;
 use exec_common::driver::*;
 use exec_common::gen::{Cfg, G};
@@ -215,15 +219,30 @@ fn run_iop(app: &mut TApp, op: &IOp) -> IObs {
     IObs { out, err, state: decode_state(&raw), digest: full_digest(&raw) }
 }
 
+/// the second Api configuration the histories are transposed to (family `alt`)
+pub const OTHER_PREFIX: &str = "juno";
+
+fn new_app_prefixed(prefix: &'static str) -> TApp {
+    AppBuilder::new_custom().with_api(MockApi::default().with_prefix(prefix)).with_custom(RecModule).build(no_init)
+}
+
+fn app_for(prefix: Option<&str>) -> TApp {
+    match prefix {
+        None => new_app(),
+        Some(p) if p == OTHER_PREFIX => new_app_prefixed(OTHER_PREFIX),
+        Some(p) => panic!("unknown prefix {}", p),
+    }
+}
+
 /// n fresh apps (each built when it is first scheduled, all alive until the end), one history each;
-/// `sched[t]` = which app performs its next operation at time t
-fn run_sched(hists: &[&[IOp]], sched: &[usize]) -> Vec<Vec<IObs>> {
+/// `sched[t]` = which app performs its next operation at time t; `prefixes[k]` = Api prefix of app k
+fn run_sched_with(hists: &[&[IOp]], sched: &[usize], prefixes: &[Option<&str>]) -> Vec<Vec<IObs>> {
     let n = hists.len();
     let mut apps: Vec<Option<TApp>> = (0..n).map(|_| None).collect();
     let mut pos = vec![0usize; n];
     let mut outs: Vec<Vec<IObs>> = vec![vec![]; n];
     for &k in sched {
-        let app = apps[k].get_or_insert_with(new_app);
+        let app = apps[k].get_or_insert_with(|| app_for(prefixes[k]));
         let op = &hists[k][pos[k]];
         pos[k] += 1;
         outs[k].push(run_iop(app, op));
@@ -232,6 +251,14 @@ fn run_sched(hists: &[&[IOp]], sched: &[usize]) -> Vec<Vec<IObs>> {
         assert_eq!(pos[k], hists[k].len(), "schedule does not exhaust history {}", k);
     }
     outs
+}
+
+fn run_sched(hists: &[&[IOp]], sched: &[usize]) -> Vec<Vec<IObs>> {
+    run_sched_with(hists, sched, &vec![None; hists.len()])
+}
+
+fn solo_prefixed(h: &[IOp], prefix: Option<&str>) -> Vec<IObs> {
+    run_sched_with(&[h], &vec![0; h.len()], &[prefix]).pop().unwrap()
 }
 
 fn solo(h: &[IOp]) -> Vec<IObs> {
@@ -301,12 +328,145 @@ fn run_threaded(h: &[IOp], noise: &[&[IOp]]) -> Vec<IObs> {
 }
 
 // ---------------------------------------------------------------------------------------------------
+// polluters: apps that differ from the scenario's app in everything an instance can differ in, run BEFORE the
+// scenario in a context where the scenario has not run yet (fresh thread, fresh process).  State hidden outside
+// the App that a differently configured instance fills (e.g. a memo of humanized addresses keyed by
+// (code id, instance number) without the Api prefix) then reaches the scenario's app.
+// ---------------------------------------------------------------------------------------------------
+type PApp<A> = App<BankKeeper, A, MockStorage, RecModule, WasmKeeper<CMsg, Empty>, StakeKeeper, DistributionKeeper, IbcFailingModule, GovFailingModule, StargateFailing>;
+
+fn polluter_builder_parts(k: usize) -> (MockStorage, BlockInfo) {
+    let mut st = MockStorage::new();
+    st.set(b"preseeded", &[k as u8 + 1]);
+    st.set(b"\x00\x04wasm\x00\x03zzz", b"x");
+    (st, BlockInfo { height: 7 + k as u64, time: Timestamp::from_nanos(99 + k as u64), chain_id: format!("polluter-{}", k) })
+}
+
+/// other code under the SAME code ids (other checksums, creators, tags), the same (code id, instance number) pairs
+/// (round robin over the scenario's table starting at `offset`), the same salts
+fn pollute_with<A: Api>(app: &mut PApp<A>, alice: Addr, bob: Addr, scn: &Scn, offset: usize) {
+    let mut ids: Vec<u64> = scn.codes.iter().map(|c| c.id).collect();
+    if ids.is_empty() {
+        ids = vec![1, 2];
+    }
+    for (k, id) in ids.iter().enumerate() {
+        let spec = CSpec {
+            tag: 900 + k as u64,
+            checksum: if (k + offset) % 2 == 0 { Some(vec![0xA0u8.wrapping_add((k + offset) as u8); 32]) } else { None },
+            has_sudo: true,
+            has_reply: true,
+            has_migrate: true,
+        };
+        let _ = catch(|| app.store_code_with_id(bob.clone(), *id, scripted(&spec)).map_err(|e| e.to_string()));
+    }
+    let _ = catch(|| app.store_code_with_creator(bob.clone(), scripted(&CSpec { tag: 999, checksum: None, has_sudo: true, has_reply: true, has_migrate: true })));
+    let _ = catch(|| {
+        app.sudo(SudoMsg::Bank(BankSudo::Mint { to_address: alice.to_string(), amount: coins_to_std(&[CoinS { denom: "uatom".into(), amount: 77 }]) }))
+            .map_err(|e| e.to_string())
+    });
+    for i in 0..8usize {
+        let id = ids[(i + offset) % ids.len()];
+        let p = leaf(9000 + i as u64, vec![Action::Write(b"a".to_vec(), vec![200])]);
+        let _ = catch(|| app.instantiate_contract(id, alice.clone(), &p, &[], "polluter", Some(alice.to_string())).map_err(|e| e.to_string()));
+    }
+    for (j, salt) in [vec![1u8], vec![2, 2], vec![9]].iter().enumerate() {
+        for id in ids.iter().take(3) {
+            let p = leaf(9100 + j as u64, vec![]);
+            let _ = catch(|| {
+                app.instantiate2_contract(*id, alice.clone(), &p, &[], "polluter2", None, Binary::from(salt.clone())).map_err(|e| e.to_string())
+            });
+        }
+    }
+    let _ = take_log();
+}
+
+/// builds and runs the polluters; they stay alive as long as the returned value
+fn pollute(scn: &Scn) -> Vec<Box<dyn std::any::Any>> {
+    let n = scn.codes.len().clamp(2, 6);
+    let mut keep: Vec<Box<dyn std::any::Any>> = vec![];
+    for k in 0..n {
+        let (st, blk) = polluter_builder_parts(k);
+        match k % 3 {
+            0 => {
+                let api = MockApi::default().with_prefix(OTHER_PREFIX);
+                let (a, b) = (api.addr_make("alice"), api.addr_make("bob"));
+                let mut app: PApp<MockApi> = AppBuilder::new_custom().with_api(api).with_storage(st).with_block(blk).with_custom(RecModule).build(no_init);
+                pollute_with(&mut app, a, b, scn, k);
+                keep.push(Box::new(app));
+            }
+            1 => {
+                let api = MockApiBech32m::new("osmo");
+                let (a, b) = (api.addr_make("alice"), api.addr_make("bob"));
+                let mut app: PApp<MockApiBech32m> =
+                    AppBuilder::new_custom().with_api(api).with_storage(st).with_block(blk).with_custom(RecModule).build(no_init);
+                pollute_with(&mut app, a, b, scn, k);
+                keep.push(Box::new(app));
+            }
+            _ => {
+                let api = MockApi::default().with_prefix("stars");
+                let (a, b) = (api.addr_make("carol"), api.addr_make("dave"));
+                let mut app: PApp<MockApi> = AppBuilder::new_custom().with_api(api).with_storage(st).with_block(blk).with_custom(RecModule).build(no_init);
+                pollute_with(&mut app, a, b, scn, k);
+                keep.push(Box::new(app));
+            }
+        }
+    }
+    keep
+}
+
+/// the history with every address of the default prefix re-encoded under `prefix` (same canonical bytes), so that
+/// it means the same thing to an app whose Api has that prefix
+fn translate(scn: &Scn, prefix: &str) -> Scn {
+    fn walk(v: &mut serde_json::Value, prefix: &str) {
+        match v {
+            serde_json::Value::String(s) => {
+                if s.starts_with("cosmwasm1") {
+                    if let Ok((hrp, data)) = bech32::decode(s) {
+                        if hrp.as_str() == "cosmwasm" {
+                            if let Ok(t) = bech32::encode::<bech32::Bech32>(bech32::Hrp::parse(prefix).unwrap(), &data) {
+                                *s = t;
+                            }
+                        }
+                    }
+                }
+            }
+            serde_json::Value::Array(a) => a.iter_mut().for_each(|x| walk(x, prefix)),
+            serde_json::Value::Object(o) => o.values_mut().for_each(|x| walk(x, prefix)),
+            _ => {}
+        }
+    }
+    let mut v = serde_json::to_value(scn).unwrap();
+    walk(&mut v, prefix);
+    serde_json::from_value(v).unwrap()
+}
+
+fn run_in_fresh_thread_after_polluters(scn: &Scn) -> Vec<IObs> {
+    let scn = scn.clone();
+    std::thread::spawn(move || {
+        let _keep = pollute(&scn);
+        solo(&scn.hist)
+    })
+    .join()
+    .unwrap_or_default()
+}
+
+// ---------------------------------------------------------------------------------------------------
 // second OS process
 // ---------------------------------------------------------------------------------------------------
+#[derive(Serialize, Deserialize, Clone, Debug)]
+struct ChildJob {
+    scn: Scn,
+    /// Api prefix of the app (None = the default MockApi)
+    prefix: Option<String>,
+    /// run the polluters first
+    pollute: bool,
+}
+
 fn child_main(file: &str) {
     std::panic::set_hook(Box::new(|_| {}));
-    let scn: Scn = serde_json::from_slice(&std::fs::read(file).expect("child: scenario file")).expect("child: scenario json");
-    let t = solo(&scn.hist);
+    let job: ChildJob = serde_json::from_slice(&std::fs::read(file).expect("child: job file")).expect("child: job json");
+    let _keep = if job.pollute { pollute(&job.scn) } else { vec![] };
+    let t = solo_prefixed(&job.scn.hist, job.prefix.as_deref());
     println!("{}", serde_json::to_string(&t).unwrap());
 }
 
@@ -557,6 +717,41 @@ fn fixed_scenarios() -> Vec<Scn> {
         },
         Some(1),
     ));
+    // F4: transfers carrying several denominations (bank send, funds of instantiate / execute, a bank sub-message):
+    // the order in which coins are rendered in events is part of the transcript
+    let c = |d: &str, a: u128| CoinS { denom: d.into(), amount: a };
+    let three = vec![c("uatom", 10), c("btc", 11), c("zeth", 12)];
+    let sub_send = Sub {
+        id: 1,
+        payload: vec![1],
+        ro: ReplyOnS::Success,
+        m: Box::new(Msg::BankSend { to: bob.clone(), amt: vec![c("zeth", 1), c("btc", 2), c("uatom", 3)] }),
+        on_ok: leaf(5, vec![]),
+        on_err: leaf(6, vec![]),
+    };
+    let mut p4 = leaf(4, vec![]);
+    if let Output::Resp { subs, .. } = &mut p4.out {
+        subs.push(sub_send);
+    }
+    v.push(assemble(
+        vec![IOp::Store { creator: None, spec: spec(100, None) }],
+        &Scenario {
+            codes: vec![],
+            users: users.clone(),
+            steps: vec![
+                step(TopOp::Mint { to: alice.clone(), amt: vec![c("uatom", 100), c("btc", 100), c("zeth", 100)] }),
+                step(TopOp::Exec { sender: alice.clone(), m: Msg::BankSend { to: bob.clone(), amt: three.clone() } }),
+                step(TopOp::Exec {
+                    sender: alice.clone(),
+                    m: Msg::Inst { code_id: 1, p: leaf(1, vec![]), funds: three.clone(), label: "L".into(), admin: None, salt: None },
+                }),
+                step(TopOp::HelperExec { sender: bob.clone(), c: classic_address(1, 0), p: leaf(2, vec![]), funds: vec![c("zeth", 2), c("uatom", 2)] }),
+                step(TopOp::Exec { sender: alice.clone(), m: Msg::Exec { c: classic_address(1, 0), p: p4, funds: vec![c("btc", 5), c("uatom", 5)] } }),
+                step(TopOp::HelperSend { sender: bob.clone(), to: alice.clone(), amt: vec![c("uatom", 1), c("zeth", 1), c("btc", 1)] }),
+            ],
+        },
+        None,
+    ));
     v
 }
 
@@ -643,21 +838,32 @@ impl Intern {
     }
 }
 
-pub const RUN_NAMES: [&str; 8] = [
+/// runs compared with run (i), in the order of the list handed to Coq (run numbers 1..)
+pub const RUN_NAMES: [&str; 11] = [
     "after-unrelated-apps",
     "twin-left",
     "twin-right",
     "stranger-first",
     "self-first",
+    "interleaved-with-other-prefix-twin",
+    "other-thread",
+    "fresh-thread-after-polluters",
     "child-process",
     "child-process-other-env-and-cwd",
-    "other-thread",
+    "child-process-after-polluters",
+];
+/// the second family (history transposed to OTHER_PREFIX), compared among themselves; the first is the reference
+/// (run numbers continue after RUN_NAMES)
+pub const ALT_NAMES: [&str; 3] = [
+    "other-prefix-child-process",
+    "other-prefix-in-process-after-default-prefix-runs",
+    "other-prefix-interleaved-with-default-prefix-twin",
 ];
 
 /// `idx` = the case number (its Tag).  The named sub-terms travel inside a comment `(*@@ ... @@*)` at the head of
 /// the case expression; `postprocess` lifts them out as top-level `Definition`s placed before the `Eval` (top-level
 /// definitions with a type annotation elaborate about three times faster than one nest of `let`s)
-fn p_case(idx: usize, scn: &Scn, r0: &[IObs], others: &[Vec<IObs>]) -> String {
+fn p_case(idx: usize, scn: &Scn, r0: &[IObs], others: &[Vec<IObs>], alt: &[Vec<IObs>]) -> String {
     let top_steps: Vec<Step> = scn
         .hist
         .iter()
@@ -672,6 +878,7 @@ fn p_case(idx: usize, scn: &Scn, r0: &[IObs], others: &[Vec<IObs>]) -> String {
     let mut it = Intern { pfx: format!("k{}_", idx), ..Default::default() };
     let r0s = it.run(r0);
     let os: Vec<String> = others.iter().map(|r| it.run(r)).collect();
+    let alts: Vec<String> = alt.iter().map(|r| it.run(r)).collect();
     let mut s = String::from("(*@@\n");
     for (i, c) in it.chains.iter().enumerate() {
         s.push_str(&format!("Definition {}ch{} : chain := {}.\n", it.pfx, i, c));
@@ -680,7 +887,7 @@ fn p_case(idx: usize, scn: &Scn, r0: &[IObs], others: &[Vec<IObs>]) -> String {
         s.push_str(&format!("Definition {}ob{} : iobs := {}.\n", it.pfx, i, o));
     }
     s.push_str("@@*)");
-    format!("{} c19 {}\n   {}\n   {}\n   {}\n   [{}]", s, ce, ck, hist, r0s, os.join(";\n    "))
+    format!("{} c19x {}\n   {}\n   {}\n   {}\n   [{}]\n   [{}]", s, ce, ck, hist, r0s, os.join(";\n    "), alts.join(";\n    "))
 }
 
 // ---------------------------------------------------------------------------------------------------
@@ -716,11 +923,16 @@ fn nondet_sources(out: &Path) -> Vec<String> {
 
 struct Runs {
     r0: Vec<IObs>,
+    /// in the order of RUN_NAMES
     others: Vec<Vec<IObs>>,
+    /// in the order of ALT_NAMES
+    alt: Vec<Vec<IObs>>,
 }
 
-fn in_process_runs(rng: &mut Rng, scn: &Scn, strangers: &[&Scn]) -> (Vec<IObs>, Vec<Vec<IObs>>) {
+/// everything that runs in this process; the child-process transcripts are filled in later (empty placeholders)
+fn in_process_runs(rng: &mut Rng, scn: &Scn, scn_alt: &Scn, strangers: &[&Scn]) -> Runs {
     let h = &scn.hist[..];
+    let ha = &scn_alt.hist[..];
     let (s1, s2, s3) = (&strangers[0].hist[..], &strangers[1].hist[..], &strangers[2].hist[..]);
     // (i)
     let r0 = solo(h);
@@ -737,7 +949,21 @@ fn in_process_runs(rng: &mut Rng, scn: &Scn, strangers: &[&Scn]) -> (Vec<IObs>, 
     // (iii-b) stranger first / this one first, strict alternation
     let stranger_first = run_sched(&[s1, h], &sched_alternate(s1.len(), h.len())).pop().unwrap();
     let self_first = run_sched(&[h, s2], &sched_alternate(h.len(), s2.len())).swap_remove(0);
-    (r0, vec![after, twin_l, twin_r, stranger_first, self_first])
+    // (iii-c) a twin with ANOTHER Api prefix running the transposed history, op by op, the other app first
+    let mut hx = run_sched_with(&[ha, h], &sched_alternate(ha.len(), h.len()), &[Some(OTHER_PREFIX), None]);
+    let with_other_prefix = hx.pop().unwrap();
+    let alt_interleaved = hx.pop().unwrap();
+    // (v) another thread, two more threads making noise
+    let th = run_threaded(h, &[s1, s2]);
+    // (vi) a fresh thread (fresh thread-locals) in which differently configured apps run first
+    let polluted_thread = run_in_fresh_thread_after_polluters(scn);
+    // second family, in this (main) thread, after all the default-prefix runs above
+    let alt_in_process = solo_prefixed(ha, Some(OTHER_PREFIX));
+    Runs {
+        r0,
+        others: vec![after, twin_l, twin_r, stranger_first, self_first, with_other_prefix, th, polluted_thread, vec![], vec![], vec![]],
+        alt: vec![vec![], alt_in_process, alt_interleaved],
+    }
 }
 
 fn first_rust_diff(r0: &[IObs], r: &[IObs]) -> Option<usize> {
@@ -822,7 +1048,7 @@ fn main() {
         let mut rng = Rng::new(args.seed);
         // a non-empty advisory scan raises the number of generated scenarios, nothing more
         let boost = if nondet.is_empty() { 1 } else { 3 };
-        let n = if args.thorough { 600 } else { 70 } * args.scale * boost;
+        let n = if args.thorough { 500 } else { 50 } * args.scale * boost;
         for _ in 0..n {
             let mut r = rng.fork();
             scns.push(gen_scn(&mut r, &cfg));
@@ -842,36 +1068,55 @@ fn main() {
     let mut n_mismatch_cases = 0u64;
     while j0 < n {
         let j1 = (j0 + chunk).min(n);
-        // (iv) fresh OS processes, started now, collected after the in-process runs of this chunk
+        // fresh OS processes, started now, collected after the in-process runs of this chunk:
+        // plain / other environment and cwd / after polluters / the transposed history under the other prefix
         let mut children = vec![];
+        let mut alts: Vec<Scn> = vec![];
         for j in j0..j1 {
-            let f: PathBuf = args.out.join(format!("child_{}.json", j));
-            std::fs::write(&f, serde_json::to_vec(&scns[j]).unwrap()).unwrap();
-            let f = std::fs::canonicalize(&f).unwrap();
-            children.push((spawn_child(&f, false, 0), spawn_child(&f, true, rng.next()), f));
+            let scn_alt = translate(&scns[j], OTHER_PREFIX);
+            let write = |name: String, job: &ChildJob| -> PathBuf {
+                let f: PathBuf = args.out.join(name);
+                std::fs::write(&f, serde_json::to_vec(job).unwrap()).unwrap();
+                std::fs::canonicalize(&f).unwrap()
+            };
+            let f_plain = write(format!("child_{}.json", j), &ChildJob { scn: scns[j].clone(), prefix: None, pollute: false });
+            let f_poll = write(format!("child_{}_p.json", j), &ChildJob { scn: scns[j].clone(), prefix: None, pollute: true });
+            let f_alt = write(format!("child_{}_a.json", j), &ChildJob { scn: scn_alt.clone(), prefix: Some(OTHER_PREFIX.to_string()), pollute: false });
+            let noise = rng.next();
+            children.push((
+                spawn_child(&f_plain, false, 0),
+                spawn_child(&f_plain, true, noise),
+                spawn_child(&f_poll, false, 0),
+                spawn_child(&f_alt, false, 0),
+                [f_plain, f_poll, f_alt],
+            ));
+            alts.push(scn_alt);
         }
         let mut partial: Vec<Runs> = vec![];
         for j in j0..j1 {
             let st = strangers_of(j);
             let st_refs: Vec<&Scn> = st.iter().collect();
-            let (r0, mut others) = in_process_runs(&mut rng, &scns[j], &st_refs);
-            // (v) another thread, two more threads making noise
-            let th = run_threaded(&scns[j].hist, &[&st[0].hist[..], &st[1].hist[..]]);
-            others.push(th);
-            partial.push(Runs { r0, others });
+            partial.push(in_process_runs(&mut rng, &scns[j], &alts[j - j0], &st_refs));
         }
-        for (k, (c1, c2, f)) in children.into_iter().enumerate() {
-            let t1 = collect_child(c1, &|| spawn_child(&f, false, 0));
-            let t2 = collect_child(c2, &|| spawn_child(&f, true, 7));
-            let _ = std::fs::remove_file(f);
-            let th = partial[k].others.pop().unwrap();
-            partial[k].others.push(t1);
-            partial[k].others.push(t2);
-            partial[k].others.push(th);
+        for (k, (c1, c2, c3, c4, fs)) in children.into_iter().enumerate() {
+            let t1 = collect_child(c1, &|| spawn_child(&fs[0], false, 0));
+            let t2 = collect_child(c2, &|| spawn_child(&fs[0], true, 7));
+            let t3 = collect_child(c3, &|| spawn_child(&fs[1], false, 0));
+            let t4 = collect_child(c4, &|| spawn_child(&fs[2], false, 0));
+            for f in fs.iter() {
+                let _ = std::fs::remove_file(f);
+            }
+            let no = partial[k].others.len();
+            partial[k].others[no - 3] = t1;
+            partial[k].others[no - 2] = t2;
+            partial[k].others[no - 1] = t3;
+            partial[k].alt[0] = t4;
         }
         for (k, runs) in partial.into_iter().enumerate() {
             let j = j0 + k;
             let scn = &scns[j];
+            assert_eq!(runs.others.len(), RUN_NAMES.len());
+            assert_eq!(runs.alt.len(), ALT_NAMES.len());
             stats_for(&mut out, scn, &runs.r0);
             let mut diffs = serde_json::Map::new();
             for (name, r) in RUN_NAMES.iter().zip(runs.others.iter()) {
@@ -881,18 +1126,37 @@ fn main() {
                         "alone": runs.r0.get(d), "this_run": r.get(d)}));
                 }
             }
+            for (name, r) in ALT_NAMES.iter().zip(runs.alt.iter()).skip(1) {
+                if let Some(d) = first_rust_diff(&runs.alt[0], r) {
+                    out.stat(&format!("rust_side_mismatch_{}", name), 1);
+                    diffs.insert(name.to_string(), serde_json::json!({"first_differing_operation": d,
+                        "reference_of_the_family": runs.alt[0].get(d), "this_run": r.get(d)}));
+                }
+            }
+            // the transposed history must mean the same thing to the other-prefix app: same error-ness, call by call
+            let same_shape = runs.r0.len() == runs.alt[0].len()
+                && runs.r0.iter().zip(runs.alt[0].iter()).all(|(a, b)| match (&a.out, &b.out) {
+                    (IOut::Top(_, x), IOut::Top(_, y)) => exec_common::outcome_class(x) == exec_common::outcome_class(y),
+                    (IOut::Id(x), IOut::Id(y)) => x == y,
+                    (IOut::Unit, IOut::Unit) | (IOut::Probe(..), IOut::Probe(..)) => true,
+                    _ => false,
+                });
+            out.stat(if same_shape { "other_prefix_run_same_outcomes_as_default" } else { "other_prefix_run_other_outcomes_than_default" }, 1);
             if !diffs.is_empty() {
                 n_mismatch_cases += 1;
             }
-            let coq = p_case(out.cases.len(), scn, &runs.r0, &runs.others);
+            let coq = p_case(out.cases.len(), scn, &runs.r0, &runs.others, &runs.alt);
             let stores_ok = runs.r0.iter().filter(|o| matches!(o.out, IOut::Id(IdOut::Ok(_)))).count();
             let contracts = runs.r0.last().map(|o| o.state.reg.len()).unwrap_or(0);
             let failing = runs.r0.iter().any(|o| matches!(&o.out, IOut::Top(_, x) if !matches!(x, OutcomeS::Ok(_))) || matches!(o.out, IOut::Id(IdOut::Err) | IOut::Id(IdOut::Panic)));
             let nt = args.replay.is_some() || (stores_ok >= 2 && contracts >= 1 && failing);
+            let mut names: Vec<&str> = RUN_NAMES.to_vec();
+            names.extend(ALT_NAMES.iter());
             // keep the JSON of the case small: run (i) in full, other runs only where they differ
             out.push(Case {
                 key: serde_json::to_string(scn).unwrap(),
-                json: serde_json::json!({"scenario": scn, "strangers": strangers_of(j), "runs": RUN_NAMES, "alone": runs.r0,
+                json: serde_json::json!({"scenario": scn, "strangers": strangers_of(j),
+                                         "runs_numbered_from_1": names, "alone": runs.r0,
                                          "differences_seen_by_the_harness": diffs}),
                 coq,
                 nontrivial: nt,
@@ -901,13 +1165,14 @@ fn main() {
         j0 = j1;
     }
     out.stat("scenarios", n as u64);
-    out.stat("runs_compared_per_scenario", RUN_NAMES.len() as u64);
-    out.stat("child_processes_spawned", 2 * n as u64);
+    out.stat("runs_compared_per_scenario", (RUN_NAMES.len() + ALT_NAMES.len()) as u64);
+    out.stat("child_processes_spawned", 4 * n as u64);
     out.stat("nondet_sources_hits", nondet.len() as u64);
     out.stat("cases_with_a_transcript_difference", n_mismatch_cases);
     let rule = format!(
-        "history = code operations in varying order (store_code, store_code_with_creator, store_code_with_id incl. id 0 / duplicate / u64::MAX, duplicate_code; explicit and generated checksums; one store possibly postponed between calls) + code-info probes + the exec_common scenario (mint, instantiate 2-4 contracts, 2-5 random top-level calls with instantiate / instantiate2, queries incl. code info, failures) with set_block only where the block changes; each history run alone and in 8 other circumstances ({}); distinct by SHA-256 of the history; non-trivial = at least two code ids stored, at least one contract address generated, at least one failing operation.  Advisory nondeterminism scan of /repo/src (Generated.nondet_sources): {}",
+        "history = code operations in varying order (store_code, store_code_with_creator, store_code_with_id incl. id 0 / duplicate / u64::MAX, duplicate_code; explicit and generated checksums; one store possibly postponed between calls) + code-info probes + the exec_common scenario (mint, instantiate 2-4 contracts, 2-5 random top-level calls with instantiate / instantiate2, queries incl. code info, failures) with set_block only where the block changes; each history run alone and in 11 other circumstances ({}; polluters = 2-6 apps with other Api prefixes / bech32m, other block and chain id, pre-seeded storage, other code under the SAME code ids, instantiating the same (code id, instance number) pairs and salts, alive while the scenario runs), plus a second family compared among themselves: the history transposed to the address prefix 'juno' ({}); distinct by SHA-256 of the history; non-trivial = at least two code ids stored, at least one contract address generated, at least one failing operation.  Advisory nondeterminism scan of /repo/src (Generated.nondet_sources): {}",
         RUN_NAMES.join(", "),
+        ALT_NAMES.join(", "),
         if nondet.is_empty() { "no hit".to_string() } else { format!("{} hit(s): {}", nondet.len(), nondet.join(" ")) }
     );
     out.prelude = print::intern_prelude();
